@@ -212,10 +212,10 @@ def read_wcs_from_header(header):
         crval.append(header.get('CRVAL{0}'.format(i), 0.0))
         cdelt.append(header.get('CDELT{0}'.format(i), 1.0))
 
-    if 'CD1_1' in header:
-        wcs_info['has_cd'] = True
-    else:
-        wcs_info['has_cd'] = False
+    # any CDi_j card makes it the CD form (elements that are zero may be left out)
+    wcs_info['has_cd'] = any('CD{0}_{1}'.format(i, j) in header
+                             for i in range(1, wcsaxes + 1)
+                             for j in range(1, wcsaxes + 1))
     pc = np.zeros((wcsaxes, wcsaxes))
     for i in range(1, wcsaxes + 1):
         for j in range(1, wcsaxes + 1):
@@ -225,7 +225,8 @@ def read_wcs_from_header(header):
                 else:
                     pc[i - 1, j - 1] = header['PC{0}_{1}'.format(i, j)]
             except KeyError:
-                if i == j:
+                # a missing PCi_j defaults to the unit matrix, a missing CDi_j to zero
+                if i == j and not wcs_info['has_cd']:
                     pc[i - 1, j - 1] = 1.
                 else:
                     pc[i - 1, j - 1] = 0.
